@@ -44,7 +44,7 @@ claim("C07",
       "567 cells); SliceMode->IndexMode map; the three range_indices return None exactly on a failed lookup or "
       "start>end and otherwise (start, end) obtained with GreaterOrEqual / Less|LessOrEqual; every result-relevant "
       "guard of the sampled dimension depends on position, offset and interval. Guards are evaluated on one "
-      "representative per region (the extracted guards, never repository code). NOT decided: behaviour for reals "
+      "representative per region (the extracted guards, never repository code). The conversions read ticks/labels through the accessors (linked values when linked). NOT decided: behaviour for reals "
       "outside the region representatives beyond what the guards' structure implies, np.isclose tolerance effects, "
       "position_at/axis inverse pair.",
       "decision-table extraction by path-sensitive abstract interpretation; region-exhaustive comparison with a spec "
@@ -66,7 +66,7 @@ claim("C02",
       "persistent attributes read storage on every path (no cached values); the hdf5 layer's attribute contract "
       "(None deletes, else the value is stored under the given name) is checked on the layer's own decision table; "
       "File.close/__exit__ reach h5py close on all normal paths; container classes never store to self outside "
-      "__init__. NOT decided: equality of the complete observable state before/after reopen, value encodings.",
+      "__init__; the layer never modifies an attribute in place and never unlinks a container group as a whole; removing an optional link never removes the entity that carried it. NOT decided: equality of the complete observable state before/after reopen, value encodings.",
       "path-sensitive abstract interpretation of every accessor (storage-key extraction, must-write / must-read on all "
       "paths)", "DESIGN.md#c02")
 claim("C12",
@@ -75,7 +75,7 @@ claim("C12",
       "depends on the call's arguments; every such (API, first write, refusal) triple is either triaged as infeasible "
       "/ rolled back with a reason (triage/c12.json) or is a recorded defect; the inventory of pre-write argument "
       "refusals (176 API x exception-class pairs) must not shrink; the rollback handler of create_multi_tag deletes "
-      "exactly what was created. Loops are unrolled twice for small members. NOT decided: failures raised inside "
+      "exactly what was created. Loops are unrolled twice for small members. create_data_array refuses a shape/data mismatch before creating anything. Findings are keyed by (API member, first write op:key, exception class). NOT decided: failures raised inside "
       "h5py/NumPy after a write (no raise statement in the source).",
       "interprocedural path-sensitive abstract interpretation (event order + taint of the refusing guard); frozen "
       "refusal inventory", "DESIGN.md#c12")
@@ -84,7 +84,8 @@ claim("C17",
       "OS and is NOT decided. Decided statically are its necessary conditions inside nixio: File.flush reaches "
       "h5py File.flush on the file's own handle on every normal path; File.close reaches h5py File.close on every "
       "normal path; nixio has no write-back layer (all 63 setters are write-through on every path, containers hold "
-      "no state).", "must-pass-through on all abstract paths; shared write-through rules of C02", "DESIGN.md#c17")
+      "no state); nothing is written after the last flush on the closing path; the HDF5 property-list operations of the "
+      "open path are classified for durability.", "must-pass-through on all abstract paths; shared write-through rules of C02", "DESIGN.md#c17")
 
 claim("C03",
       "Static decision, on every abstract path of the 13 public creators (create_* and copy variants): the creation "
@@ -94,7 +95,7 @@ claim("C03",
       "API member comes from uuid4 or from an oid that passed is_uuid (the layer's copy re-ids with uuid4); every "
       "HDF5 group/file creation requests creation-order tracking+indexing and positional access iterates the "
       "creation-order index increasing; the id-or-name dispatchers are checked for a fall-back to the name when the "
-      "id search misses (known finding D10: they have none). NOT decided: uniqueness of uuid4 values, agreement of "
+      "id search misses (known finding D10: they have none); containers answer every lookup from the file (nothing enumerated is remembered) and decide membership of an entity by its id. NOT decided: uniqueness of uuid4 values, agreement of "
       "all lookup paths as sequences at run time.",
       "must-precede / value-provenance on all abstract paths (path-sensitive abstract interpretation); raw h5py "
       "event arguments; decision tables of the dispatchers", "DESIGN.md#c03")
@@ -220,7 +221,7 @@ claim("C14",
       "absence of errors on every well-formed file (depends on the unit grammar, C09), validator behaviour on objects "
       "whose accessors raise.",
       "decision-table extraction by path-sensitive abstract interpretation + evaluation of the extracted guards on "
-      "enumerated scenarios against a catalogue oracle; AST def-use for the traversal; returned-term membership", "DESIGN.md#c14")
+      "enumerated scenarios against a catalogue oracle; abstract paths of check_file with pinned loop decisions for the traversal; returned-term membership", "DESIGN.md#c14")
 
 claim("C18",
       "Static decision on nixio/cmd/upgrade.py, every abstract path: for a file older than the library collect_tasks "
@@ -264,6 +265,8 @@ claim("C01",
       "the per-axis table of the hyperslab (appended axis: region [old : old + added]; other axes: [0 : extent]); "
       "a[index] / a[index] = v / write_direct / create_data_array(data=) pass index and value through unchanged and "
       "unswapped; writer, dtype reader and read conversion agree on the text type; array handles keep nothing about "
-      "the data set.",
+      "the data set; the hdf5 layer decides 'no region given' by identity with None (index 0 is a region); the array "
+      "classes never transfer element values through the raw h5py object; a shape argument that differs from the "
+      "data's shape is refused before the array is created (exact, no broadcasting).",
       "conditional-constant propagation / argument provenance / event order on all abstract paths (path-sensitive "
       "abstract interpretation, raw h5py mode for the layer); who-may-create over the call graph", "DESIGN.md#c01")
